@@ -605,7 +605,70 @@ def check_case(ctx, drv, mods, case, rng, given=None):
                     rep.violate(f"form-differs:{key}", f"stations {q['stations']} gave {txt!r} but {alt} gave {t2!r}", qi)
     if snapshot(data) != pristine and not any(h[0].startswith("source-mutated") for h in rep.hits):
         rep.violate(f"source-mutated:{kind}", "the source data differs after the query sequence", len(case["queries"]) - 1)
+    # --- the caller updates the source data in place (an instrument is replaced: the open-ended entry is closed, a new
+    # one appended; an early entry is dropped) and asks again with the same dictionary object: the answers are those
+    # of the histories the data holds *now*
+    if given is None and rng is not None and not any(h[0].startswith("source-mutated") for h in rep.hits) and rng.random() < 0.6:
+        source2 = updated_source(rng, kind, source)
+        if source2 is not None:
+            new = build_real(kind, source2)
+            # ask everything once more with this very dictionary and nothing else in between (whatever the library
+            # remembers about it is remembered now), update it, ask again; only then ask fresh dictionaries
+            for q in case["queries"]:
+                call_real(mods, kind, data, q)
+            for k in list(data):
+                data[k].clear()
+                data[k].update(new[k])
+            if ctx is not None:
+                ctx.count("history:query,update-source-in-place,query")
+            answers = [call_real(mods, kind, data, q) for q in case["queries"]]
+            for qi, q in enumerate(case["queries"]):
+                txt, raw = answers[qi]
+                t2, _ = call_real(mods, kind, build_real(kind, source2), q)
+                if txt != t2:
+                    rep.violate(f"stale-after-source-updated:{kind}:{q['mod']}",
+                                f"after the source data was updated in place {q['mod']}.{q['op']} answers {txt!r}, but {t2!r} on a fresh dictionary with the same contents", qi)
+                    break
+                if q["mod"] != "all":
+                    oracle_module_get(rep, kind, source2, q, txt, raw, qi)
     return rep
+
+
+def updated_source(rng, kind, source):
+    """the abstract source after an in-place update: per station and block either the last interval is closed at a
+    later date and a new open-ended one appended, or the first interval is dropped, or the block is left alone"""
+    src = copy.deepcopy(source)
+    tag = 900000
+    changed = False
+    for st in src:
+        blocks = ("ant", "rcv", "ecc") if kind == "snx" else ("pv",)
+        for b in blocks:
+            rows = st.get(b)
+            if not rows:
+                continue
+            how = rng.choice(["append", "append", "drop-first", "keep"])
+            if how == "append":
+                # rows: [start, end, tag] (snx) or [soln, start, end, tag] (ssc)
+                i0 = 0 if kind == "snx" else 1
+                ends = [r[i0 + 1] for r in rows if r[i0 + 1] is not None]
+                starts = [r[i0] for r in rows if r[i0] is not None]
+                last_t = max(ends + starts) if (ends + starts) else 0
+                cut = last_t + 86400 * 1000000 * rng.randint(1, 400)
+                if cut > 3.0e17:      # beyond datetime.max
+                    continue
+                for r in rows:
+                    if r[i0 + 1] is None:
+                        r[i0 + 1] = cut
+                tag += 1
+                if kind == "snx":
+                    rows.append([cut, None, tag])
+                else:
+                    rows.append([max(r[0] for r in rows) + 1, cut, None, tag])
+                changed = True
+            elif how == "drop-first" and len(rows) > 1:
+                rows.pop(0)
+                changed = True
+    return src if changed else None
 
 
 # ------------------------------------------------------------------------------------------------
